@@ -5,6 +5,7 @@ import (
 	"encoding/json"
 	"errors"
 	"fmt"
+	cbor "github.com/fxamacker/cbor/v2"
 	"reflect"
 	"sort"
 	"strings"
@@ -93,6 +94,41 @@ type c15OptOrder struct {
 	A *int64  `cbor:"1,keyasint" json:"a"`
 	B *string `cbor:"2,omitempty,keyasint" json:"b,omitempty"`
 	C *[]byte `cbor:"-3,omitempty,keyasint" json:"c,omitempty"`
+}
+
+// keys that need more than 32 bits
+type c15BigKeys struct {
+	A *int64  `cbor:"4294967301,keyasint" json:"a"`
+	B *string `cbor:"-4294967302,keyasint,omitempty" json:"b,omitempty"`
+	C *[]byte `cbor:"5,keyasint,omitempty" json:"c,omitempty"`
+	D *uint16 `cbor:"-6,keyasint,omitempty" json:"d,omitempty"`
+}
+
+// the outer struct declares (after the embedded one) a key that the embedded struct has as well: the outer field is
+// the one that is serialised and populated
+type c15Inner struct {
+	B *string `cbor:"2,keyasint,omitempty" json:"b,omitempty"`
+	C *[]byte `cbor:"-3,keyasint,omitempty" json:"c,omitempty"`
+}
+type c15Shadow struct {
+	c15Inner
+	B2 *string `cbor:"2,keyasint,omitempty" json:"b,omitempty"`
+	F  *int64  `cbor:"256,keyasint,omitempty" json:"f,omitempty"`
+}
+
+// two embedded structs at the same level
+type c15Left struct {
+	L1 *int64  `cbor:"11,keyasint,omitempty" json:"l1,omitempty"`
+	L2 *string `cbor:"12,keyasint" json:"l2"`
+}
+type c15Right struct {
+	R1 *[]byte `cbor:"-21,keyasint,omitempty" json:"r1,omitempty"`
+	R2 *uint16 `cbor:"22,keyasint,omitempty" json:"r2,omitempty"`
+}
+type c15TwoEmbedded struct {
+	c15Left
+	c15Right
+	O *bool `cbor:"1,keyasint,omitempty" json:"o,omitempty"`
 }
 
 // an embedded interface holding a struct BY VALUE (serialise only: it cannot be populated in place)
@@ -202,6 +238,24 @@ var optOrderFields = []c15Field{
 	{"B", 2, "b", false, func(r any, v int) { x := strv(v); r.(*c15OptOrder).B = &x }, func(v int) *mcbor.Node { return mcbor.T(strv(v)) }, func(v int) any { return strv(v) }, nil},
 	{"C", -3, "c", false, func(r any, v int) { x := bytv(v); r.(*c15OptOrder).C = &x }, func(v int) *mcbor.Node { return mcbor.B(bytv(v)) }, func(v int) any { return b64(bytv(v)) }, nil},
 }
+var bigKeyFields = []c15Field{
+	{"A", 4294967301, "a", true, func(r any, v int) { x := i64v(v); r.(*c15BigKeys).A = &x }, func(v int) *mcbor.Node { return mcbor.I(i64v(v)) }, func(v int) any { return i64v(v) }, nil},
+	{"B", -4294967302, "b", false, func(r any, v int) { x := strv(v); r.(*c15BigKeys).B = &x }, func(v int) *mcbor.Node { return mcbor.T(strv(v)) }, func(v int) any { return strv(v) }, nil},
+	{"C", 5, "c", false, func(r any, v int) { x := bytv(v); r.(*c15BigKeys).C = &x }, func(v int) *mcbor.Node { return mcbor.B(bytv(v)) }, func(v int) any { return b64(bytv(v)) }, nil},
+	{"D", -6, "d", false, func(r any, v int) { x := u16v(v); r.(*c15BigKeys).D = &x }, func(v int) *mcbor.Node { return mcbor.U(uint64(u16v(v))) }, func(v int) any { return u16v(v) }, nil},
+}
+var shadowFields = []c15Field{ // outer fields first; the embedded struct's own B is never set
+	{"B2", 2, "b", false, func(r any, v int) { x := strv(v); r.(*c15Shadow).B2 = &x }, func(v int) *mcbor.Node { return mcbor.T(strv(v)) }, func(v int) any { return strv(v) }, nil},
+	{"F", 256, "f", false, func(r any, v int) { x := i64v(v + 1); r.(*c15Shadow).F = &x }, func(v int) *mcbor.Node { return mcbor.I(i64v(v + 1)) }, func(v int) any { return i64v(v + 1) }, nil},
+	{"C", -3, "c", false, func(r any, v int) { x := bytv(v); r.(*c15Shadow).C = &x }, func(v int) *mcbor.Node { return mcbor.B(bytv(v)) }, func(v int) any { return b64(bytv(v)) }, nil},
+}
+var twoEmbFields = []c15Field{
+	{"O", 1, "o", false, func(r any, v int) { x := v%2 == 0; r.(*c15TwoEmbedded).O = &x }, func(v int) *mcbor.Node { return mcbor.Bool(v%2 == 0) }, func(v int) any { return v%2 == 0 }, nil},
+	{"L1", 11, "l1", false, func(r any, v int) { x := i64v(v); r.(*c15TwoEmbedded).L1 = &x }, func(v int) *mcbor.Node { return mcbor.I(i64v(v)) }, func(v int) any { return i64v(v) }, nil},
+	{"L2", 12, "l2", true, func(r any, v int) { x := strv(v); r.(*c15TwoEmbedded).L2 = &x }, func(v int) *mcbor.Node { return mcbor.T(strv(v)) }, func(v int) any { return strv(v) }, nil},
+	{"R1", -21, "r1", false, func(r any, v int) { x := bytv(v); r.(*c15TwoEmbedded).R1 = &x }, func(v int) *mcbor.Node { return mcbor.B(bytv(v)) }, func(v int) any { return b64(bytv(v)) }, nil},
+	{"R2", 22, "r2", false, func(r any, v int) { x := u16v(v); r.(*c15TwoEmbedded).R2 = &x }, func(v int) *mcbor.Node { return mcbor.U(uint64(u16v(v))) }, func(v int) any { return u16v(v) }, nil},
+}
 var valImplFields = []c15Field{
 	{"B", 2, "b", false, func(r any, v int) {
 		x := strv(v)
@@ -222,6 +276,15 @@ var ifaceOwnFields = []c15Field{
 	{"F", 256, "f", false, func(r any, v int) { x := i64v(v + 1); r.(*c15IfaceEmb).F = &x }, func(v int) *mcbor.Node { return mcbor.I(i64v(v + 1)) }, func(v int) any { return i64v(v + 1) }, nil},
 }
 
+// a decoder mode that takes indefinite-length items (the default of fxamacker/cbor)
+var c15IndefDM = func() cbor.DecMode {
+	m, err := cbor.DecOptions{}.DecMode()
+	if err != nil {
+		panic(err)
+	}
+	return m
+}()
+
 type c15Shape struct {
 	name       string
 	fresh      func() any
@@ -240,6 +303,9 @@ var c15Shapes = []c15Shape{
 	{"anonymous-non-struct", func() any { return &c15AnonNonStruct{} }, anonFields, false, false},
 	{"omitempty-in-one-tag-only", func() any { return &c15Asym{} }, asymFields, false, false},
 	{"omitempty-before-keyasint", func() any { return &c15OptOrder{} }, optOrderFields, false, false},
+	{"keys-wider-than-32-bits", func() any { return &c15BigKeys{} }, bigKeyFields, false, false},
+	{"outer-field-shadows-embedded-key", func() any { return &c15Shadow{} }, shadowFields, true, false},
+	{"two-embedded-structs", func() any { return &c15TwoEmbedded{} }, twoEmbFields, true, false},
 	{"iface-holding-struct-by-value", func() any { return &c15IfaceEmb{C15Iface: c15ValImpl{}} }, append(append([]c15Field{}, ifaceOwnFields...), valImplFields...), true, true},
 }
 
@@ -361,6 +427,17 @@ func c15Eval(c *choice.Ctx, st *Stats, sh c15Shape, mask int, variant int, perm 
 		d.Pairs = append(d.Pairs, [2]*mcbor.Node{p[0].Clone(), p[1].Clone()})
 		if err := encoding.PopulateStructFromCBOR(extDM, mcbor.Encode(d), sh.fresh()); err == nil {
 			c.Failf("C15:duplicate-key-accepted:"+tag, "CBOR input with key %d twice is accepted (%s)", k, desc)
+		}
+		// ... also when the map is of indefinite length (whether such a map is taken at all is the decoder mode's business)
+		if err := encoding.PopulateStructFromCBOR(c15IndefDM, mcbor.Encode(d.Ind()), sh.fresh()); err == nil {
+			c.Failf("C15:duplicate-key-accepted:indefinite-length-map:"+tag, "indefinite-length CBOR input with key %d twice is accepted (%s)", k, desc)
+		}
+		// ... and when the second occurrence carries the very same value bytes is no excuse either (checked above), nor
+		// when it is spelled with a non-shortest head
+		d2 := n.Clone()
+		d2.Pairs = append(d2.Pairs, [2]*mcbor.Node{p[0].Clone().W(8), p[1].Clone()})
+		if err := encoding.PopulateStructFromCBOR(extDM, mcbor.Encode(d2), sh.fresh()); err == nil {
+			c.Failf("C15:duplicate-key-accepted:long-head:"+tag, "CBOR input with key %d twice (second time with an 8-byte head) is accepted (%s)", k, desc)
 		}
 	}
 	// ---- JSON ----
@@ -735,6 +812,63 @@ func init() {
 			c15stats.StateStr(fmt.Sprint("twins", order, js))
 		}, nil
 	}
+	// returned bytes of exactly a power-of-two size (or one less / more) stay what they were
+	Scenarios["c15.returned-bytes-exact-size"] = func() (choice.Scenario, func() any) {
+		return func(c *choice.Ctx) {
+			target := []int{64, 128, 256, 512, 1024, 2048, 4096, 65536}[c.Choose("size", 8)] + c.Choose("offset", 3) - 1
+			js := c.Choose("format", 2) == 1
+			emb := c.Choose("shape", 2) == 1
+			one, g := int64(1), "g"
+			mk := func(pad int, fill byte) any {
+				b := bytes.Repeat([]byte{fill}, pad)
+				if emb {
+					return &c15Emb1{c15Flat: c15Flat{A: &one, C: &b}, G: &g}
+				}
+				return &c15Flat{A: &one, C: &b}
+			}
+			ser := func(v any) ([]byte, error) {
+				if js {
+					return encoding.SerializeStructToJSON(v)
+				}
+				return encoding.SerializeStructToCBOR(extEM, v)
+			}
+			var got []byte
+			for pad := 0; pad <= target; pad++ {
+				b, err := ser(mk(pad, 0x5a))
+				if err != nil {
+					return
+				}
+				if len(b) == target {
+					got = b
+					break
+				}
+				if len(b) > target {
+					break
+				}
+				if target-len(b) > 8 {
+					if js {
+						pad += (target-len(b))*3/4 - 3 // base64 grows by 4 per 3 bytes
+					} else {
+						pad += target - len(b) - 4
+					}
+				}
+			}
+			if got == nil {
+				return // JSON sizes that base64 cannot hit
+			}
+			kept := append([]byte{}, got...)
+			c15stats.StateStr(fmt.Sprint("exact", target, js, emb))
+			c15stats.Trans.Add(1)
+			for _, pad := range []int{0, 1, target / 2, target - 8, target, 2 * target} {
+				_, _ = ser(mk(pad, 0xa5))
+				_, _ = encoding.SerializeStructToJSON(mk(pad, 0x11))
+				_, _ = encoding.SerializeStructToCBOR(extEM, mk(pad, 0x22))
+			}
+			if !bytes.Equal(got, kept) {
+				c.Failf(fmt.Sprintf("C15:returned-bytes-change:json=%v:size-%d", js, target), "a %d-byte serialisation changed when other values were serialised afterwards", target)
+			}
+		}, nil
+	}
 	Scenarios["c15.synthetic.quick"] = mkSyn(sizesQuick)
 	Scenarios["c15.synthetic.thorough"] = mkSyn(sizesThorough)
 	// extension profiles built on each base profile: round trip through their codec methods
@@ -810,6 +944,7 @@ func init() {
 		exploreChoiceOpts(r, "c15.returned-bytes", -1, dl, 1)
 		exploreChoiceOpts(r, "c15.after-failed-serialise", -1, dl, 1)
 		exploreChoiceOpts(r, "c15.same-name-types", -1, dl, 1)
+		exploreChoiceOpts(r, "c15.returned-bytes-exact-size", -1, dl, 1)
 		exploreChoiceOpts(r, "c15.shapes", -1, dl, hookWorkers())
 		if thorough(r) {
 			exploreChoice(r, "c15.synthetic.thorough", -1, dl)
